@@ -173,6 +173,8 @@ class World:
         self.probe = np.array([O.fl(x) for x in case['probe']])
         self.fp, self.meta_snap, self.state = [], [], []
         self.rd, self.rd_new = {}, {}
+        self.pristine, self.mutlog = [], []
+        self._bbflag = {}
         self.last_operand = None
         self.last_source = None
         self.triggers = []      # (object, names of the hidden attributes written) of the current step
@@ -194,6 +196,10 @@ class World:
     def add_obj(self, ob, kind, bad):
         if kind == 'source' and not bad:
             self.last_source = len(self.objs)
+        # a private copy taken before anything has been asked of the new object, and the documented mutators
+        # applied to the object since: replaying them on a copy of the copy gives a fresh twin in the same state
+        self.pristine.append(None if kind == 'observation' or bad else copy.deepcopy(ob))
+        self.mutlog.append([])
         self.objs.append(ob)
         self.kinds.append(kind)
         self.bad.append(bad)
@@ -202,7 +208,7 @@ class World:
         self.meta_snap.append(None)
         return len(self.objs) - 1
 
-    def readings(self, ob, kind):
+    def readings(self, ob, kind, light=False):
         """the DEFAULT-wavelength readings of an object: `waveset` (or None), `waverange`, `integrate()` with the
         trapezoid rule and, for a bandpass, `avgwave()`; (bytes for the bit-comparison, digest for the report)"""
         r = self.guarded(lambda: ob.waveset)
@@ -215,7 +221,7 @@ class World:
         rng = self.guarded(lambda: np.asarray(ob.waverange.value, dtype=float))
         rb = rng['ok'].tobytes() if 'ok' in rng else ('err', rng['err'])
         dig = {'n': int(w.size), 'lo': float(w[0]), 'hi': float(w[-1]), 'integ': None}
-        it = self.guarded(lambda: float(ob.integrate(integration_type='trapezoid').value))
+        it = {'err': 'skipped'} if light else self.guarded(lambda: float(ob.integrate(integration_type='trapezoid').value))
         ib = it.get('ok', it.get('err'))
         if 'ok' in it and math.isfinite(it['ok']):
             dig['integ'] = it['ok']
@@ -227,6 +233,13 @@ class World:
                 dig['avg'] = av['ok']
         return ('ok', w.tobytes(), rb, repr(ib), repr(ab)), dig
 
+    def has_bb(self, i):
+        """does the object's model contain a BlackBody1D (its integral is C16's subject and costs ~10 ms per call)"""
+        if i not in self._bbflag:
+            from synphot.models import BlackBody1D
+            self._bbflag[i] = any(isinstance(l, BlackBody1D) for l in model_leaves(self.objs[i]._model))
+        return self._bbflag[i]
+
     def fingerprint(self, i):
         """(bytes used for the bit-comparison, values for reporting); the default-wavelength readings are kept
         in self.rd[i] / self.rd_dig[i]"""
@@ -235,7 +248,7 @@ class World:
         ob = self.objs[i]
         if self.bad[i]:
             return ('bad',), None
-        self.rd_new[i] = self.readings(ob, self.kinds[i])
+        self.rd_new[i] = self.readings(ob, self.kinds[i], light=self.has_bb(i))
         try:
             v = np.asarray(ob(self.probe).value, dtype=float)
         except Exception as e:  # noqa
@@ -993,33 +1006,62 @@ class World:
                 fw.run_step(j, sj)
         return fw
 
+    def log_mutation(self, conc, info, out):
+        """record the documented mutator a step applied to an object (its own assignments, and the forced
+        extrapolation of normalize / Observation(force='extrap') on their source operand)"""
+        d = conc['do']
+        if 'err' in out and d in ('set_z', 'set_ztype'):
+            return
+        if d == 'set_z':
+            self.mutlog[info['o']].append(('z', O.fl(conc['z'])))
+        elif d == 'set_ztype':
+            self.mutlog[info['o']].append(('z_type', conc['t']))
+        elif d == 'force_extrap':
+            self.mutlog[info['o']].append(('force',))
+        elif d == 'normalize' and info['stat'].startswith('partial') and not (info['stat'] == 'partial_notmost' and not conc['force']):
+            self.mutlog[info['o']].append(('force',))
+        elif d == 'observation' and info['stat'].startswith('partial') and str(conc['force']).lower().startswith('extrap') \
+                and self.kinds[info['src']] == 'source':
+            self.mutlog[info['src']].append(('force',))
+
+    def twin(self, o):
+        """a fresh object structurally identical to #o and carrying the same final attribute values: a copy of the
+        copy taken at construction, with the documented mutators #o has received replayed on it; never queried"""
+        if self.pristine[o] is None:
+            return None
+        t = copy.deepcopy(self.pristine[o])
+        for m in self.mutlog[o]:
+            if m[0] == 'z':
+                t.z = m[1]
+            elif m[0] == 'z_type':
+                t.z_type = m[1]
+            else:
+                t.force_extrapolation()
+        return t
+
     def check_assigned(self, k, conc, info):
         """after z / z_type / force_extrapolation has been assigned on object o: its default-wavelength readings and
         its samples must equal those of a fresh twin built with the final attribute values"""
         o = info.get('o')
         if o is None or o in self.dead or self.bad[o]:
             return
-        fw = self.fresh_world(k)
-        try:
-            if len(fw.objs) <= o or fw.kinds[o] != self.kinds[o]:
-                return
-            twin = fw.objs[o]
-            r_live = self.rd_new.get(o) or self.readings(self.objs[o], self.kinds[o])
-            r_twin = fw.readings(twin, fw.kinds[o])
-            if r_live[0] != r_twin[0]:
-                self.fail('%s:readings_depend_on_earlier_queries' % conc['do'],
-                          'after %s on object #%d its waveset / waverange / integrate() / avgwave() are %s; a fresh identical '
-                          'object given the same final attribute values (and never queried before) reads %s'
-                          % (conc['do'], o, r_live[1], r_twin[1]), k)
-            s_live = self.guarded(lambda: np.asarray(self.objs[o](self.probe).value).tobytes())
-            s_twin = self.guarded(lambda: np.asarray(twin(self.probe).value).tobytes())
-            if s_live.get('ok') != s_twin.get('ok'):
-                self.fail('%s:samples_depend_on_earlier_calls' % conc['do'],
-                          'after %s object #%d samples differently from a fresh identical object with the same final '
-                          'attribute values' % (conc['do'], o), k)
-        finally:
-            fw.close()
-            np.seterr(**DEF_ERR)
+        twin = self.guarded(lambda: self.twin(o)).get('ok')
+        if twin is None:
+            return
+        light = self.has_bb(o)
+        r_live = self.rd_new.get(o) or self.readings(self.objs[o], self.kinds[o], light)
+        r_twin = self.readings(twin, self.kinds[o], light)
+        if r_live[0] != r_twin[0]:
+            self.fail('%s:readings_depend_on_earlier_queries' % conc['do'],
+                      'after %s on object #%d its waveset / waverange / integrate() / avgwave() are %s; a fresh identical '
+                      'object given the same final attribute values (and never queried before) reads %s'
+                      % (conc['do'], o, r_live[1], r_twin[1]), k)
+        s_live = self.guarded(lambda: np.asarray(self.objs[o](self.probe).value).tobytes())
+        s_twin = self.guarded(lambda: np.asarray(twin(self.probe).value).tobytes())
+        if s_live.get('ok') != s_twin.get('ok'):
+            self.fail('%s:samples_depend_on_earlier_calls' % conc['do'],
+                      'after %s object #%d samples differently from a fresh identical object with the same final '
+                      'attribute values' % (conc['do'], o), k)
 
     def mutate_and_read(self, ob, kind, which):
         """apply one documented mutator to `ob` (a private copy) and take its default-wavelength readings"""
@@ -1141,6 +1183,7 @@ def impl_call(case):
             w.triggers = []
             rec = w.observe(k, conc, out, info or {}, allowed, n_before, last=(k == len(case['steps']) - 1))
             w.check_result_meta(k, conc, out, info or {}, metas_before)
+            w.log_mutation(conc, info or {}, out)
             if conc['do'] in ('set_z', 'set_ztype', 'force_extrap') and 'err' not in out:
                 w.check_assigned(k, conc, info or {})
             if w.triggers and not case.get('_fresh'):
